@@ -227,6 +227,9 @@ def run(ctx):
     # ---------------- the data transform's own Jacobians (necessary for a normalised density)
     from ..report import reuse
     from . import c04
+    from . import c13 as _c13
+    reuse(ctx, _c13.run, ("C13.flow", "C13.nomut"), "C03rt", "flow round-trip rules shared with C13: a proposal that loses its data transform, its weights or a constructor option on "
+          "save / load / re-save evaluates log_prob on a different density than the one its stored draws and log_q values came from")
     reuse(ctx, c04.run, ("C04.deriv", "C04.anti", "C04.affine", "C04.wire", "C04.acc", "C04.unit"), "C03dt",
           "data-transform rule shared with C04: the proposal density includes these Jacobians")
 
@@ -321,6 +324,9 @@ MUTANTS += [
       "**kwargs,\n        )\n\n    def fit", "**kwargs,\n        )\n        self._log_prob_fn = functools.lru_cache(maxsize=8)(self._flow.log_prob)\n\n    def fit", "C03.stale"),
     M("open interval ends defaulted with `or` (a bound of 0 becomes infinite)", "src/aspire/transforms.py", "prior_bounds[k], device=device, dtype=self.dtype", "[prior_bounds[k][0] or -math.inf, prior_bounds[k][1] or math.inf], device=device, dtype=self.dtype", "C03.attach"),
     M("init_flow drops the flow dtype", _A, "data_transform=data_transform,\n            dtype=self.dtype,", "data_transform=data_transform,", "C03.attach"),
+]
+MUTANTS += [
+    M("saving a flow pops the data transform out of its recorded constructor arguments", "src/aspire/flows/torch/flows.py", "config = self.config_dict().copy()\n        data_transform = config.pop(\"data_transform\", None)", "config = self.config_dict()\n        data_transform = config.pop(\"data_transform\", None)\n        config = dict(config)", "C03rt"),
 ]
 NEUTRALS = [
     M("zuko log_prob operand order", _TF, "self._flow().log_prob(x_prime) + log_abs_det_jacobian", "log_abs_det_jacobian + self._flow().log_prob(x_prime)"),
